@@ -73,9 +73,9 @@ def nt_c20(lhs, impl):
 
 PROPS["C20"] = {
     "modules": ["WhatIs.Props.C20"],
-    "theorems": ["WhatIs.C20.sanitizes", "WhatIs.C20.no_raw_control", "WhatIs.C20.line_count",
+    "theorems": ["WhatIs.C20.sanitizes", "WhatIs.C20.sanitizes_path", "WhatIs.C20.path_no_raw_control", "WhatIs.C20.no_raw_control", "WhatIs.C20.line_count",
                  "WhatIs.C20.lines_eq_layout", "WhatIs.C20.encode_no_c0", "WhatIs.C20.sanitize_id_on_clean"],
-    "facts": {"cli.printInfo.sanitizes": True},
+    "facts": {"cli.printInfo.sanitizes": True, "cli.pathSanitized": True},
     "nontrivial": nt_c20,
     "rule": "Info trees fed to the REAL printInfo (verif build of cmd/decipher): every C0/DEL/C1 control (UTF-8 and raw byte "
             "forms) and stray bytes at start/middle/end of description, attribute name, attribute value at depths 0..2, plus "
@@ -236,7 +236,7 @@ def nt_c07(lhs, impl):
 PROPS["C07"] = {
     "modules": ["WhatIs.Props.C07"],
     "theorems": ["WhatIs.C07.no_trace", "WhatIs.C07.first_success", "WhatIs.C07.result_origin", "WhatIs.C07.no_inner_star",
-                 "WhatIs.C07.signature_rows_first", "WhatIs.C07.name_rows", "WhatIs.C07.magics_prefix_free",
+                 "WhatIs.C07.signature_rows_first", "WhatIs.C07.text_sniffers_before_asn1", "WhatIs.C07.name_rows", "WhatIs.C07.magics_prefix_free",
                  "WhatIs.C07.reserved_exact", "WhatIs.C07.earlier_rows_silent"],
     "facts": {"filetypes.rows": 16, "filetypes.patternWithInnerStar": False},
     "nontrivial": nt_c07,
@@ -309,7 +309,7 @@ PROPS["C18"] = {
     "modules": ["WhatIs.Props.C18"],
     "theorems": ["WhatIs.C18.no_map_range", "WhatIs.C18.null_rejected", "WhatIs.C18.numeric_dates_handled", "WhatIs.C18.empty_shown",
                  "WhatIs.C18.tables_ok", "WhatIs.C18.split_three", "WhatIs.C18.jwt_iff", "WhatIs.C18.registered_readback",
-                 "WhatIs.C18.alg_readback", "WhatIs.C18.numeric_dates", "WhatIs.C18.absent_not_shown", "WhatIs.C18.order_independent",
+                 "WhatIs.C18.alg_readback", "WhatIs.C18.numeric_dates", "WhatIs.C18.absent_not_shown", "WhatIs.C18.header_claims_apart", "WhatIs.C18.order_independent",
                  "WhatIs.C18.signature_readback"],
     "facts": {"jwt.rangesOverMap": False, "jwt.nullRejected": True, "jwt.numericDates": True, "jwt.emptyShown": True,
               "jwt.paramCount": 16, "jwt.algCount": 12},
@@ -609,9 +609,9 @@ def nt_c12(lhs, impl):
 
 PROPS["C12"] = {
     "modules": ["WhatIs.Props.C12"],
-    "theorems": ["WhatIs.C12.reserialize_exact", "WhatIs.C12.parsed_length", "WhatIs.C12.fingerprint_rfc4880", "WhatIs.C12.kdf_witness",
+    "theorems": ["WhatIs.C12.reserialize_exact", "WhatIs.C12.parsed_length", "WhatIs.C12.fingerprint_rfc4880", "WhatIs.C12.kdf_witness", "WhatIs.C12.kdf_keeps_extra", "WhatIs.C12.reserialize_exact_full", "WhatIs.C12.fingerprint_rfc4880_full",
                  "WhatIs.C12.mpi_bits_declared", "WhatIs.C12.lifetime_zero_is_never", "WhatIs.C12.expiry_spec", "WhatIs.C12.expiry_zero_witness", "WhatIs.C12.frame_new", "WhatIs.C12.frame_old", "WhatIs.C12.frame_partial"],
-    "facts": {"pgp.lifetimeZeroIsNever": True},
+    "facts": {"pgp.lifetimeZeroIsNever": True, "pgp.kdfKeepsExtra": True},
     "nontrivial": nt_c12,
     "rule": "v4 keys written by the harness's OWN OpenPGP writer (own packet framing, own framing of signed data, signatures made with the "
             "Go standard library): primaries RSA-1024/2047, DSA, ECDSA P-256/384/521, EdDSA; subkeys RSA, ECDH P-256 and cv25519, ECDSA "
